@@ -23,6 +23,7 @@ import hashlib
 import json
 import os
 import random
+import time
 
 from . import lib
 
@@ -50,7 +51,7 @@ def write_cfg(path, family, pool="S", owners=("a1e", "f"), spends=("t1", "u"), a
         f.write("  ActionShaped = %s\n  MaxTx = %d\n  MaxOut = %d\n  MaxSp = %d\n  Emit = %s\n"
                 % ("TRUE" if action else "FALSE", maxtx, maxout, maxsp, "TRUE" if emit else "FALSE"))
         if invariants:
-            f.write("INVARIANTS Positions Partition Errors HashTag RangeOfOne\n")
+            f.write("INVARIANTS AllTheorems\n")
         f.write("CHECK_DEADLOCK FALSE\n")
 
 
@@ -64,7 +65,8 @@ def families(ctx):
         # the bound of the property text, over the reduced alphabet {wallet, foreign} x {tracked, untracked}
         ("A", dict(family="P", pool="S", owners=("a1e", "f"), spends=("t1", "u"), maxtx=3, maxout=2 if q else 3, maxsp=1 if q else 2)),
         # full alphabet, smaller bound
-        ("B", dict(family="P", pool="O", owners=full_o + ("m",), spends=full_s + ("m",), maxtx=2, maxout=2 if q else 2, maxsp=1 if q else 2)),
+        ("B", dict(family="P", pool="O", owners=full_o + ("m",), spends=full_s + ("m",), action=True, maxtx=1 if q else 2, maxout=2)),
+        ("Bs", dict(family="P", pool="S", owners=full_o + ("m",), spends=full_s + ("m",), maxtx=1 if q else 2, maxout=2, maxsp=2 if q else 1)),
         ("X", dict(family="X", maxtx=1 if q else 2)),
     ]
     emit = [
@@ -336,19 +338,6 @@ class WalletGen:
         blocks.append(self.block(k, txs, "ok"))
         return self.finish(blocks, "padded", note="%s %s%s" % (pool, split, " after %d" % extra_block if extra_block else ""))
 
-    def dup_txid(self):
-        """Two blocks of one range each holding a transaction with the same txid: the first one's
-        second output is the wallet's, the other transaction is foreign."""
-        avail = []
-        x = self.next_x
-        self.next_x += 1
-        t1 = self.tx(1, {"S": (["f", "a1e"], 0, 0)}, avail)
-        t1["x"] = x
-        t2 = self.tx(1, {"S": (["f", "f", "f"], 0, 0)}, avail)
-        t2["x"] = x
-        other = self.tx(2, {"S": (["a2e"], 0, 0)}, avail)
-        return self.finish([self.block(1, [t1], "ok"), self.block(2, [t2, other], "ok")], "dup_txid")
-
 
 def wallet_scenarios(ctx, rng):
     g = WalletGen(rng)
@@ -378,7 +367,6 @@ def wallet_scenarios(ctx, rng):
             pads.append(("padded", pool, [33, 33, 33, 1, 1], {0, 32, 33, 98, 99, 100}, None))
             pads.append(("padded", pool, [101], {0, 99, 100}, 99))
     plan += pads
-    plan += [("dup",)] * (2 if q else 4)
     plan += [("valid", rng.randint(1, 3)) for _ in range(10 if q else 40)]
     rng.shuffle(plan)
     for item in plan:
@@ -386,8 +374,6 @@ def wallet_scenarios(ctx, rng):
             g.corrupt_range(item[1], item[2], item[3])
         elif item[0] == "padded":
             g.padded(item[1], item[2], item[3], item[4])
-        elif item[0] == "dup":
-            g.dup_txid()
         else:
             g.valid_range(item[1], rich=True)
     g.valid_range(2, rich=True)
@@ -575,7 +561,9 @@ def run(ctx):
         c["fam"] = "random"
     fam_counts["random"] = len(rnd)
     cases += rnd
+    t0 = time.time()
     res = run_block_mode(ctx, bindir, cases, "blocks")
+    lib.log("[replay] scan_block: %d cases in %.1fs, stats %s" % (len(cases), time.time() - t0, res.get("stats")))
     if res["cases"] != len(cases) and not any(m.get("kind") == "setup" for m in res["mismatches"]):
         raise lib.ToolError("block replay consumed %d of %d cases" % (res["cases"], len(cases)))
     judge_block(ctx, res)
@@ -583,6 +571,7 @@ def run(ctx):
     wallet_stats = {}
     for n in THREADS:
         wr = futs[n].result()
+        lib.log("[replay] scan_cached_blocks threads=%d: %s scenarios, stats %s" % (n, wr["scenarios"], wr.get("stats")))
         wallet_stats[str(n)] = {"scenarios": wr["scenarios"], "stats": wr.get("stats", {})}
         judge_wallet(ctx, wr, scenarios, n)
         if not wr["mismatches"] and wr["scenarios"] != len(scenarios):
